@@ -144,7 +144,8 @@ pub fn main(a: &Args) {
         queries.push("pneumonoultramicroscopicsilicovolcanoconiosisxyzabcdefghijklmnopqrstuv".chars().collect());
         let evs = par_map(queries.len(), a.num("threads", 12) as usize, |_| (), |_, i| {
             let q = &queries[i];
-            let bound = (i % 4) as u8;
+            // six distinct bounds, so that whatever a thread keeps per bound (automaton builders) gets recycled
+            let bound = [0u8, 1, 2, 3, 4, 5, 2, 1, 3, 0, 4, 2][i % 12];
             let cap = [1usize, 3, 10, 100][(i / 4) % 4];
             let r = catch(|| {
                 let f = fst.fuzzy_match(q, bound, cap);
